@@ -29,13 +29,14 @@ def close(a, b, tol):
 
 
 # ------------------------------------------------------------------------------------------ generation
-def gen_live(rng, n, kind=None, aa=False):
+def gen_live(rng, n, kind=None, aa=False, subst=None, general=False):
     """(initial case, use_prior, ops).  ops: {"op":"set","param":id,"value":[…]} | {"op":"read","what":…} | {"op":"eval"}"""
     kind = kind or rng.choice(["time", "time", "reparam", "unrooted"])
-    subst = rng.choice(["LG", "WAG"]) if aa else rng.choice(["JC69", "HKY", "GTR", "GeneralSymmetric", "GeneralNonSymmetric"])
+    if subst is None:
+        subst = rng.choice(["LG", "WAG"]) if aa else rng.choice(["JC69", "HKY", "GTR", "GeneralSymmetric", "GeneralNonSymmetric"])
     site = rng.choice(["constant", "invariant", "weibull", "weibull+inv"])
     case = G.gen_case(rng, n, subst=subst, site=site, rooting="unrooted" if kind == "unrooted" else "time",
-                      explicit_heights=True, nsites=rng.randint(3, 6))
+                      explicit_heights=True, nsites=rng.randint(2, 3) if subst == "MG94" else rng.randint(3, 6), general=general)
     tree = G.parse_newick(case["newick"])
     G.set_indices(tree, case["taxa"])
     names = [x.name for x in tree.leaves()]
@@ -70,7 +71,9 @@ def gen_live(rng, n, kind=None, aa=False):
         if param == "kappa":
             return [rng.uniform(0.5, 6.0)]
         if param == "freqs":
-            return G.rand_freqs(rng, 4)
+            return G.rand_freqs(rng, len(case["subst"]["freqs"]))
+        if param in ("alpha", "beta"):
+            return [rng.uniform(0.2, 2.5)]
         if param == "rates":
             return [rng.uniform(0.3, 3.0) for _ in range(len(case["subst"]["rates"]))]
         if param == "shape":
@@ -91,6 +94,8 @@ def gen_live(rng, n, kind=None, aa=False):
         params += ["kappa", "freqs"]
     elif sk in ("GTR", "GeneralSymmetric", "GeneralNonSymmetric"):
         params += ["rates", "freqs"]
+    elif sk == "MG94":
+        params += ["kappa", "alpha", "beta", "freqs", "alpha", "beta"]
     if case["site"]["kind"] == "weibull":
         params.append("shape")
     if case["site"].get("pinv") is not None:
@@ -129,6 +134,8 @@ def apply_to_case(cur, param, value):
         cur["branch_lengths"] = list(value)
     elif param == "kappa":
         cur["subst"]["kappa"] = value[0]
+    elif param in ("alpha", "beta"):
+        cur["subst"][param] = value[0]
     elif param == "freqs":
         cur["subst"]["freqs"] = list(value)
     elif param == "rates":
@@ -145,18 +152,32 @@ def apply_to_case(cur, param, value):
 class LiveRun:
     """one live TreeLikelihoodModel (+ optional coalescent prior on its tree) executing a history one operation at a time"""
 
-    def __init__(self, case, use_prior):
+    def __init__(self, case, use_prior, requires_grad=False):
         import torch
         from torchtree.evolution.tree_likelihood import TreeLikelihoodModel
 
         torch.set_default_dtype(torch.float64)
         self.case, self.cur, self.dic, self.prior = case, copy.deepcopy(case), {}, None
+        self.requires_grad = requires_grad
         self.model = TreeLikelihoodModel.from_json(G.build_spec(case), self.dic)
+        if requires_grad:
+            for p in self.dic.values():
+                self._grad(p)
         if use_prior:
             from torchtree.evolution.coalescent import ConstantCoalescentModel
 
             self.prior = ConstantCoalescentModel.from_json(
                 {"id": "coalescent", "type": "ConstantCoalescentModel", "theta": G.P("theta", [3.0]), "tree_model": "tree"}, self.dic)
+
+    @staticmethod
+    def _grad(p):
+        import torch
+
+        if hasattr(p, "tensor") and hasattr(p, "requires_grad") and torch.is_tensor(getattr(p, "tensor", None)) and p.tensor.is_floating_point():
+            try:
+                p.requires_grad = True
+            except Exception:  # noqa: BLE001
+                pass
 
     def step(self, step, op, on_fresh=None):
         """execute one operation; an `eval` returns a record, anything else None (or a failing record if it raised)"""
@@ -166,6 +187,8 @@ class LiveRun:
         try:
             if op["op"] == "set":
                 self.dic[op["param"]].tensor = torch.tensor(op["value"], dtype=torch.float64)
+                if self.requires_grad:
+                    self._grad(self.dic[op["param"]])
                 apply_to_case(cur, op["param"], op["value"])
                 return None
             if op["op"] == "read":
@@ -185,7 +208,7 @@ class LiveRun:
                         p.tensor = p.tensor.clone()
                         break
                 return None
-            impl = float(model().reshape(-1)[0])
+            impl = float(model().detach().reshape(-1)[0])
         except Exception as e:  # noqa: BLE001
             impl, err = None, repr(e)[:300]
             if op["op"] != "eval":
@@ -206,11 +229,11 @@ class LiveRun:
         return rec
 
 
-def run_live(case, use_prior, ops, on_fresh=None):
+def run_live(case, use_prior, ops, on_fresh=None, requires_grad=False):
     """execute a history on the REAL objects. Returns a list of records, one per `eval`:
     {"step", "impl", "oracle", "fresh", "case"}; an exception of the implementation gives impl=None."""
     try:
-        lr = LiveRun(case, use_prior)
+        lr = LiveRun(case, use_prior, requires_grad)
     except Exception as e:  # noqa: BLE001
         return [{"step": -1, "impl": None, "oracle": None, "fresh": None, "case": case, "error": repr(e)[:300]}]
     out = []
@@ -288,10 +311,10 @@ def failing(rec):
     return False
 
 
-def shrink(case, use_prior, ops, deadline=None):
+def shrink(case, use_prior, ops, deadline=None, requires_grad=False):
     """drop operations while the history still fails (reads first, then sets)"""
     def fails(o, pr):
-        return any(failing(r) for r in run_live(case, pr, o))
+        return any(failing(r) for r in run_live(case, pr, o, requires_grad=requires_grad))
 
     import time
 
@@ -309,3 +332,127 @@ def shrink(case, use_prior, ops, deadline=None):
     if use_prior and not any(o["op"] == "read" and o["what"] == "prior" for o in ops) and fails(ops, False):
         use_prior = False
     return use_prior, ops
+
+
+# ------------------------------------------------------------------------------------------------------------------
+# SHARED SUB-OBJECTS: several live likelihoods that refer to ONE Taxa / Alignment / SitePattern / substitution / site model
+def gen_shared(rng, k=None):
+    """one data set and 2-3 consumers: each its own tree over the same taxa (another topology), its own options (tip states vs
+    partials, ambiguities, use_postorder_indices) — every sub-object but the tree is shared by reference"""
+    k = k or rng.choice([2, 2, 3])
+    n = rng.choice([3, 4, 5])
+    base = G.gen_case(rng, n, subst=rng.choice(["JC69", "HKY", "GTR", "LG"]), site=rng.choice(["constant", "invariant", "weibull"]),
+                      rooting="unrooted", special=rng.random() < 0.5, nsites=rng.randint(3, 5))
+    names = list(base["seqs"].keys())
+    consumers = []
+    for j in range(k):
+        topo = G.shuffle_children(rng, G.random_topology(rng, list(names)))
+        G.assign_lengths(rng, topo)
+        c = dict(base)
+        c["newick"] = G.newick(topo)
+        c["use_tip_states"] = rng.choice([True, False, None])
+        c["use_ambiguities"] = rng.choice([True, False, None])
+        leaves = [x.name for x in topo.leaves()]
+        po = rng.random() < 0.6 and base["taxa"] != leaves
+        c["tree_options"] = {"use_postorder_indices": True} if po else None
+        consumers.append(c)
+    # make sure at least one consumer renumbers its leaves when the taxa order allows it
+    if not any(c["tree_options"] for c in consumers):
+        for c in consumers:
+            if [x.name for x in G.parse_newick(c["newick"]).leaves()] != base["taxa"]:
+                c["tree_options"] = {"use_postorder_indices": True}
+                break
+    update = None
+    if base["subst"]["kind"] == "HKY":
+        update = {"param": "kappa", "value": [rng.uniform(0.5, 6.0)]}
+    elif base["subst"]["kind"] == "GTR":
+        update = {"param": "rates", "value": [rng.uniform(0.3, 3.0) for _ in range(6)]}
+    elif base["site"]["kind"] in ("invariant",):
+        update = {"param": "pinv", "value": [rng.uniform(0.05, 0.6)]}
+    return {"consumers": consumers, "via": rng.choice(["json-references", "python-objects"]), "order": rng.sample(range(k), k), "update": update}
+
+
+def run_shared(plan):
+    """build the shared sub-objects once, every consumer on top of them, evaluate interleaved; -> records"""
+    import torch
+    from torchtree.core.utils import process_object, process_objects
+    from torchtree.evolution.tree_likelihood import TreeLikelihoodModel
+
+    torch.set_default_dtype(torch.float64)
+    cons = plan["consumers"]
+    specs = [G.build_spec(c) for c in cons]
+    out = []
+    # oracles first (their throw-away models must not sit between construction and evaluation of the live ones only)
+    wants = []
+    for c in cons:
+        m = G.build_model(c)
+        wants.append(G.oracle_loglik(c, m)[0])
+    dic = {}
+    s0 = specs[0]
+    taxa_def = s0["tree_model"]["taxa"]
+    aln_def = dict(s0["site_pattern"]["alignment"], taxa="taxa")
+    sp_def = dict(s0["site_pattern"], alignment="aln")
+    shared = [taxa_def, aln_def, sp_def, s0["substitution_model"], s0["site_model"]]
+    likes = []
+    try:
+        if plan["via"] == "json-references":
+            objs = list(shared)
+            for j, sj in enumerate(specs):
+                t = copy.deepcopy(sj["tree_model"])
+                t["id"], t["taxa"] = f"tree{j}", "taxa"
+                t["branch_lengths"]["id"] = f"bl{j}"
+                like = {"id": f"like{j}", "type": "TreeLikelihoodModel", "tree_model": f"tree{j}", "site_model": "sm",
+                        "substitution_model": "m", "site_pattern": "sp"}
+                for key in ("use_ambiguities", "use_tip_states"):
+                    if key in sj:
+                        like[key] = sj[key]
+                objs += [t, like]
+            built = process_objects(copy.deepcopy(objs), dic)
+            likes = [dic[f"like{j}"] for j in range(len(cons))]
+        else:
+            for d in shared:
+                process_object(copy.deepcopy(d), dic)
+            for j, sj in enumerate(specs):
+                t = copy.deepcopy(sj["tree_model"])
+                t["id"], t["taxa"] = f"tree{j}", "taxa"
+                t["branch_lengths"]["id"] = f"bl{j}"
+                tm = process_object(t, dic)
+                likes.append(TreeLikelihoodModel(f"like{j}", dic["sp"], tm, dic["m"], dic["sm"], None,
+                                                 sj.get("use_ambiguities", False), sj.get("use_tip_states", False)))
+    except Exception as e:  # noqa: BLE001
+        return [{"instance": -1, "impl": None, "oracle": None, "error": "construction raised " + repr(e)[:300]}]
+    # what the shared SitePattern hands out must not have been altered by its consumers
+    sp = dic["sp"]
+    n = len(cons[0]["taxa"])
+    try:
+        part, w = sp.compute_tips_partials(False)
+        st, _w = sp.compute_tips_states()
+        ref = G.build_model(dict(cons[0], use_tip_states=False, use_ambiguities=False, tree_options=None))
+        ok_hand = len(part) == n and len(st) == n and all(torch.equal(part[i], ref.partials[i]) for i in range(n))
+    except Exception as e:  # noqa: BLE001
+        ok_hand = False
+    out.append({"instance": -1, "kind": "shared-sitepattern-output-intact", "impl": 0.0 if ok_hand else None, "oracle": 0.0, "fresh": None})
+
+    def ev(j, label):
+        try:
+            v = float(likes[j]().detach().reshape(-1)[0])
+            err = None
+        except Exception as e:  # noqa: BLE001
+            v, err = None, repr(e)[:200]
+        r = {"instance": j, "kind": label, "impl": v, "oracle": wants[j], "fresh": None}
+        if err:
+            r["error"] = err
+        out.append(r)
+    for j in plan["order"]:
+        ev(j, "first")
+    up = plan.get("update")
+    if up is not None:
+        dic[up["param"]].tensor = torch.tensor(up["value"], dtype=torch.float64)   # a SHARED parameter: every consumer must follow
+        for j, c in enumerate(cons):
+            cur = copy.deepcopy(c)
+            apply_to_case(cur, up["param"], up["value"])
+            m = G.build_model(cur)
+            wants[j] = G.oracle_loglik(cur, m)[0]
+        for j in reversed(plan["order"]):
+            ev(j, "after-shared-update")
+    return out
